@@ -37,12 +37,13 @@ fn main() {
         let mut tries = 0;
         while groups.len() < ng && tries < ng * 4 {
             tries += 1;
-            let g = match rng.below(4) {
+            let g = match rng.below(5) {
                 0 => gen_linear(&mut rng, 4, 6),
                 1 => {
                     let b = gen_linear(&mut rng, 3, 5);
                     with_contradictions(&mut rng, b)
                 }
+                4 => gen_pinned_degenerate(&mut rng),
                 2 => {
                     // collapsed guesses: degenerate geometry inside one group
                     let mut s = gen_planted(&mut rng, 4, 0.0, &SHAPES);
